@@ -157,17 +157,19 @@ class GAF:
         is_primary = True
         cigar = ""
 
-        # Check if there are additional tags
+        # Check if there are additional tags (the optional fields start at the 13th column)
         tags = {}
-        for k in fields:
-            if re.match("[A-Za-z][A-Za-z0-9]:[AifZHB]:[A-Za-z0-9]+", k):
-                pattern = re.findall(r"([A-Za-z][A-Za-z0-9]:[AifZHB]:)[A-Za-z0-9]+", k)[0]
+        for k in fields[12:]:
+            tag_match = re.match(r"^([A-Za-z][A-Za-z0-9]:[AifZHB]:)([ !-~]*)$", k)
+            if tag_match:
+                pattern, val = tag_match.groups()
+                # the ds tag (minigraph >= v0.21) is not supported and is ignored
+                if pattern == "ds:Z:":
+                    continue
                 if pattern == "cg:Z:":
-                    val = re.findall(r"[A-Za-z][A-Za-z0-9]:[AifZHB]:([A-Za-z0-9=]+)", k)[0]
                     cigar = val
                     tags[pattern] = val
                 else:
-                    val = re.findall(r"[A-Za-z][A-Za-z0-9]:[AifZHB]:([A-Za-z0-9.]+)", k)[0]
                     if pattern not in tags:
                         tags[pattern] = val
 
